@@ -181,6 +181,7 @@ type FwdCli struct {
 func init() {
 	Register(&Scenario{
 		Name:     "rev",
+		OptsToo:  true,
 		LazyToo:  true,
 		DescToo:  true,
 		Property: "C16",
